@@ -11,7 +11,7 @@ TR = "embedded_graphics::text::renderer::TextRenderer"
 
 def run(ctx, rep):
     prog = ctx.program("default")
-    rep.configs.append("default")
+    rep.configs.append(getattr(ctx, "alias", "default"))
     fonts = []
     for f, v in font_table(prog):
         try:
@@ -177,21 +177,61 @@ def check_text_union(prog, rep):
     bb = prog.method1(TEXT, "bounding_box", "embedded_graphics_core::geometry::Dimensions")
     dr = prog.method1(TEXT, "draw", "embedded_graphics_core::drawable::Drawable")
 
-    def call_args(f, name):
-        o = Origins(f)
-        for bi in sorted(o.cfg.live_blocks()):
-            t = f.body["blocks"][bi]["t"]
-            if t and t["k"] == "call" and t["f"].get("name") == name:
-                return [strip_refs(a) for a in o.term_args(bi)]
+    def line_pos_source(f, name):
+        """Where do the (text, position, baseline) arguments of the `name` call in f's family come from?
+        -> 'lines-item' when text/position are the two components of an item of self.lines() (loop variable or
+        closure parameter of a combinator applied to self.lines()), plus the baseline argument."""
+        fam = [f]
+        i = 0
+        while i < len(fam):
+            fam.extend(prog.closures_of.get(fam[i].id, []))
+            i += 1
+        for g in fam:
+            o = Origins(g)
+            for bi in sorted(o.cfg.live_blocks()):
+                t = g.body["blocks"][bi]["t"]
+                if not (t and t["k"] == "call" and t["f"].get("name") == name):
+                    continue
+                a = [strip_refs(x) for x in o.term_args(bi)]
+                text, pos, base = a[1], a[2], a[3]
+                item = None
+                m0 = match(text, ("field", "?it", 0))
+                m1 = match(pos, ("field", "?it", 1))
+                if m0 is not None and m1 is not None and m0["?it"] == m1["?it"]:
+                    item = m0["?it"]
+                if item is None:
+                    return ("other", show(text, maxd=4), show(pos, maxd=4))
+                # loop variable: payload of next() on an iterator derived from self.lines()
+                mm = match(item, ("field", ("variant", ("call", "*::next", "_", ("?src",)), "Some"), 0))
+                if mm is not None and any(n[0] == "call" and n[1].endswith("::lines") for n in walk(mm["?src"])):
+                    return ("lines-item", _baseline_norm(base))
+                # closure parameter of a combinator over self.lines()
+                if g.kind == "closure" and item[0] == "param" and item[1] == 2:
+                    parent = prog.fns.get(g.parent_fn)
+                    if parent is not None:
+                        po = Origins(parent)
+                        for bj in sorted(po.cfg.live_blocks()):
+                            pt = parent.body["blocks"][bj]["t"]
+                            if pt and pt["k"] == "call" and pt["f"].get("name") in ("map", "for_each", "try_for_each", "try_fold", "fold"):
+                                pa = po.term_args(bj)
+                                if any(n[0] == "agg" and n[1] == "closure:" + g.id for x in pa for n in walk(x)) and any(n[0] == "call" and n[1].endswith("::lines") for n in walk(pa[0])):
+                                    return ("lines-item", _baseline_norm(base))
+                return ("other", show(item, maxd=4))
         return None
-    a1 = call_args(bb, "measure_string")
-    a2 = call_args(dr, "draw_string")
-    ok = a1 is not None and a2 is not None and _same_line_pos(a1[1:4], a2[1:4])
-    rep.check(ok, "R02.4", "same-lines", "Text::bounding_box must measure the same (line, position, baseline) triples from lines() that Text::draw draws; measure args %s vs draw args %s"
-              % ([show(x, maxd=4) for x in (a1 or [])[1:4]], [show(x, maxd=4) for x in (a2 or [])[1:4]]), at=bb.span, fn=bb.path)
+    a1 = line_pos_source(bb, "measure_string")
+    a2 = line_pos_source(dr, "draw_string")
+    ok = a1 is not None and a2 is not None and a1[0] == "lines-item" and a1 == a2
+    rep.check(ok, "R02.4", "same-lines", "Text::bounding_box must measure the (line, position, baseline) triples of self.lines() that Text::draw draws; measure: %s draw: %s" % (a1, a2), at=bb.span, fn=bb.path,
+              status="undecided" if (a1 is None or a2 is None) else "refuted")
     ro = strip_refs(Origins(bb).return_origin())
     ok = bool(find(ro, ("call", "*Rectangle::with_corners", "_", ("?a", "?b"))))
     rep.check(ok, "R02.4", "with_corners", "Text::bounding_box must return with_corners(min, max)", at=bb.span, fn=bb.path)
+
+
+def _baseline_norm(t):
+    """self.text_style.baseline, whether read through self, an upvar copy of self or a captured field"""
+    import re
+    return re.sub(r"\^self(__\w+)?|\*|self", "S", show(strip_refs(t), maxd=6))
 
 
 def _same_line_pos(a, b):
